@@ -791,9 +791,35 @@ fn replay_json(sc: &Scenario, v: &Violation, committed: &[Item], seed: u64, inde
 }
 
 fn run_one(world: &World, seed: u64, index: u64, max_len: usize, want_sample: bool) -> RunReport {
-    let (di, sc) = scenario_for(world, seed, index, max_len);
+    let (di, mut sc) = scenario_for(world, seed, index, max_len);
     let (def, rf) = &world.defs[di];
+    let variant = (index / world.defs.len() as u64) % RUNS_PER_INPUT;
+    if variant == 0 && sc.input.len() <= 64 {
+        // split sweep: the first run of every input tries EVERY split position as a two-chunk schedule
+        // (the property's own quantifier "input S and split point k"); reported as one evaluation
+        let mut merged = Stats::default();
+        let mut last = None;
+        for k in 1..=sc.input.len().max(1) {
+            sc.events = vec![Ev::Read(k)];
+            let out = exec(def, rf, &sc);
+            for (key, v) in &out.stats.c { *merged.c.entry(key).or_insert(0) += v; }
+            merged.steps += out.stats.steps;
+            merged.none_with_pending |= out.stats.none_with_pending;
+            let failed = out.violation.is_some();
+            last = Some(out);
+            if failed { break; }
+        }
+        let mut out = last.unwrap();
+        merged.hit("split_sweeps");
+        out.stats = merged;
+        return finish_report(&sc, out, seed, index, want_sample);
+    }
     let out = exec(def, rf, &sc);
+    finish_report(&sc, out, seed, index, want_sample)
+}
+
+fn finish_report(sc: &Scenario, out: Outcome_, seed: u64, index: u64, want_sample: bool) -> RunReport {
+    let sc = sc.clone();
     let counters: Vec<(&'static str, u64)> = out.stats.c.iter().map(|(k, v)| (*k, *v)).collect();
     let sample = if want_sample {
         Some(json!({"run_index": index, "scenario": sc.to_json(), "committed": fmt_items(&out.committed), "violation": out.violation.as_ref().map(|v| v.what.clone())}))
